@@ -29,7 +29,7 @@ import pylops.signalprocessing as sp  # noqa: E402
 PID = "C07"
 SUB = "C07b"
 TOL = 1e-9
-OWN_V = ["Ops/IndexOps.v", "Ops/Conv.v", "Ops/InterpOps.v", "Corr/CheckC07b.v", "Props/C07b.v"]
+OWN_V = ["Ops/IndexOps.v", "Ops/Conv.v", "Ops/InterpOps.v", "Ops/ConvND.v", "Ops/BilinearOp.v", "Corr/CheckC07b.v", "Props/C07b.v"]
 
 # Genuine defects of the unchanged tree found while building this check
 # (proposed entries for known_findings.json; see the builder's report).
@@ -134,6 +134,13 @@ def _dims(p):
 
 @family("Pad")
 class Pad:
+    @staticmethod
+    def model(p):
+        if len(p["dims"]) != 1:
+            return None
+        (b, a), n = p["pad"][0], p["dims"][0]
+        return "(pad_fwd QcR %d %d)" % (b, a), "(pad_adj QcR %d %d)" % (b, n)
+
     cplx = staticmethod(lambda p: False)
 
     @staticmethod
@@ -162,6 +169,13 @@ class Pad:
 @family("Restriction")
 class Restriction(Axis1D):
     @staticmethod
+    def model(p):
+        if len(p["dims"]) != 1:
+            return None
+        il = common.natlist(p["iava"])
+        return "(restr_fwd QcR %s)" % il, "(restr_adj QcR %d %s)" % (p["dims"][0], il)
+
+    @staticmethod
     def build(p):
         return pylops.Restriction(_dims(p), p["iava"], axis=p.get("axis", -1), inplace=p.get("inplace", True))
 
@@ -179,6 +193,10 @@ class Restriction(Axis1D):
 
 @family("Flip")
 class Flip(Axis1D):
+    @staticmethod
+    def model(p):
+        return ("(flip_fwd QcR)", "(flip_fwd QcR)") if len(p["dims"]) == 1 else None
+
     @staticmethod
     def build(p):
         return pylops.Flip(_dims(p), axis=p.get("axis", -1))
@@ -198,6 +216,12 @@ class Flip(Axis1D):
 @family("Roll")
 class Roll(Axis1D):
     @staticmethod
+    def model(p):
+        if len(p["dims"]) != 1:
+            return None
+        return "(roll_fwd QcR %s)" % common.zlit(p["shift"]), "(roll_adj QcR %s)" % common.zlit(p["shift"])
+
+    @staticmethod
     def build(p):
         return pylops.Roll(_dims(p), axis=p.get("axis", -1), shift=p["shift"])
 
@@ -215,6 +239,10 @@ class Roll(Axis1D):
 
 @family("Symmetrize")
 class Symmetrize(Axis1D):
+    @staticmethod
+    def model(p):
+        return ("(symm_fwd QcR)", "(symm_adj QcR %d)" % p["dims"][0]) if len(p["dims"]) == 1 else None
+
     @staticmethod
     def build(p):
         return pylops.Symmetrize(_dims(p), axis=p.get("axis", -1))
@@ -248,6 +276,12 @@ class Sum(Axis1D):
 
 @family("Identity")
 class Identity:
+    @staticmethod
+    def model(p):
+        if len(p["N"]) != 1:
+            return None
+        return "(ident_fwd QcR %d %d)" % (p["N"][0], p["M"][0]), "(ident_adj QcR %d %d)" % (p["N"][0], p["M"][0])
+
     cplx = staticmethod(lambda p: False)
 
     @staticmethod
@@ -272,6 +306,10 @@ class Identity:
 
 @family("Zero")
 class Zero:
+    @staticmethod
+    def model(p):
+        return "(zero_fwd QcR %d)" % prod(p["N"]), "(zero_adj QcR %d)" % prod(p["M"])
+
     cplx = staticmethod(lambda p: False)
 
     @staticmethod
@@ -292,6 +330,14 @@ class Zero:
 
 @family("Diagonal")
 class Diagonal(Axis1D):
+    @staticmethod
+    def model(p):
+        if len(p["dims"]) != 1 and not p.get("full"):
+            return None
+        c = _is_c(p["d"])
+        S, d = ("GS" if c else "QcS"), vl(_cv(p["d"]), c)
+        return "(diag_fwd %s %s)" % (S, d), "(diag_adj %s %s)" % (S, d)
+
     cplx = staticmethod(lambda p: _is_c(p["d"]))
 
     @staticmethod
@@ -327,6 +373,12 @@ class Diagonal(Axis1D):
 
 @family("Transpose")
 class Transpose:
+    @staticmethod
+    def model(p):
+        if len(p["dims"]) != 2 or [a % 2 for a in p["axes"]] != [1, 0]:
+            return None
+        return "(transp2_fwd QcR %d %d)" % tuple(p["dims"]), "(transp2_adj QcR %d %d)" % tuple(p["dims"])
+
     cplx = staticmethod(lambda p: False)
 
     @staticmethod
@@ -367,6 +419,15 @@ def _toeplitz(h, off, m, n):
 
 @family("Convolve1D")
 class Convolve1D(Axis1D):
+    @staticmethod
+    def model(p):
+        if len(p["dims"]) != 1 or len(p["h"]) > p["dims"][0]:
+            return None
+        c = _is_c(p["h"])
+        h = vl(_cv(p["h"]), c)
+        return ("(conv_same_model %s %s %d)" % ("GR" if c else "QcR", h, p["offset"]),
+                "(conv_adj_model %s %s %d)" % ("GS" if c else "QcS", h, p["offset"]))
+
     cplx = staticmethod(lambda p: _is_c(p["h"]))
 
     @staticmethod
@@ -388,6 +449,14 @@ class Convolve1D(Axis1D):
 
 @family("Smoothing1D")
 class Smoothing1D(Axis1D):
+    @classmethod
+    def model(cls, p):
+        if len(p["dims"]) != 1:
+            return None
+        ns = cls._ns(p)
+        return ("(smooth_model QcR %d (q 1 %d))" % (ns, ns),
+                "(conv_adj_model QcS (smooth_h QcR %d (q 1 %d)) %d)" % (ns, ns, (ns - 1) // 2))
+
     @staticmethod
     def build(p):
         return pylops.Smoothing1D(p["nsmooth"], _dims(p), axis=p.get("axis", -1))
@@ -433,6 +502,17 @@ def _h3(p):
 
 class _ConvN:
     cplx = staticmethod(lambda p: False)
+
+    @staticmethod
+    def model(p, exact_h=None):
+        """conv2_model of Ops/ConvND.v: 2-d dims, 2-d kernel on both axes (in order)."""
+        dims, nd = p["dims"], len(p["dims"])
+        h = np.array(p["h"], dtype=float)
+        if nd != 2 or h.ndim != 2 or sorted(a % nd for a in p["axes"]) != [0, 1]:
+            return None
+        hl = exact_h or "[" + "; ".join(common.vlit(r) for r in h) + "]"
+        args = "%s %d %d %d %d %d" % (hl, h.shape[1], p["offset"][0], p["offset"][1], dims[0], dims[1])
+        return "(conv2_model QcR %s)" % args, "(conv2_adj_model QcS %s)" % args
 
     @staticmethod
     def ref(p):
@@ -493,6 +573,13 @@ class Smoothing2D(_ConvN):
     def coq(cls, p):
         return _ConvN.coq(cls._p(p))
 
+    @classmethod
+    def model(cls, p):
+        q = cls._p(p)
+        k1, k2 = np.array(q["h"]).shape
+        row = "[" + "; ".join(["(q 1 %d)" % (k1 * k2)] * k2) + "]"
+        return _ConvN.model(q, exact_h="[" + "; ".join([row] * k1) + "]")
+
 
 def _round_half_even(x):
     """numpy.round as documented: halves go to the nearest EVEN integer."""
@@ -512,6 +599,17 @@ def _interp_pos(n, pos):
 
 @family("Interp")
 class Interp(Axis1D):
+    @staticmethod
+    def model(p):
+        if len(p["dims"]) != 1:
+            return None
+        n = p["dims"][0]
+        pl = "[" + "; ".join(common.qlit(x) for x in p["iava"]) + "]"
+        if p["kind"] == "nearest":
+            return "(restr_fwd QcR (map qround %s))" % pl, "(restr_adj QcR %d (map qround %s))" % (n, pl)
+        lw = "(interp_ls %d %s) (interp_ws %d %s)" % (n, pl, n, pl)
+        return "(interp_fwd QcR %s)" % lw, "(interp_adj QcR %d %s)" % (n, lw)
+
     @staticmethod
     def build(p):
         return sp.Interp(_dims(p), np.array(p["iava"], dtype=float), axis=p.get("axis", -1), kind=p["kind"])[0]
@@ -541,6 +639,18 @@ class Interp(Axis1D):
 
 @family("Bilinear")
 class Bilinear:
+    @staticmethod
+    def model(p):
+        dims = p["dims"]
+        n1, n2, inner = dims[0], dims[1], prod(dims[2:])
+        p0 = "[" + "; ".join(common.qlit(x) for x in p["iava"][0]) + "]"
+        p1 = "[" + "; ".join(common.qlit(x) for x in p["iava"][1]) + "]"
+        args = "(map pfloor %s) (map pfloor %s) (map pweight %s) (map pweight %s)" % (p0, p1, p0, p1)
+        if len(dims) == 2:
+            return "(bilin_code_fwd QcR %d %s)" % (n2, args), "(bilin_code_adj QcR %d %d %s)" % (n1 * n2, n2, args)
+        return ("(bilin_batch_fwd QcR %d %d %s)" % (n2, inner, args),
+                "(bilin_batch_adj QcR %d %d %d %s)" % (n1 * n2 * inner, n2, inner, args))
+
     cplx = staticmethod(lambda p: False)
 
     @staticmethod
@@ -818,6 +928,20 @@ def grid(tier):
     add("Bilinear", dims=[2, 2], iava=[[0.5], [0.25]])
     add("Bilinear", dims=[4, 5, 2], iava=[[0.5, 2.75], [1.5, 3.5]])
     add("Bilinear", dims=[3, 4, 2, 2], iava=[[1.25, 0.5, 0.0], [2.5, 0.75, 1.0]])
+    add("Bilinear", dims=[3, 4], iava=[[0.25, 0.5, 0.75, 1.5], [1.25, 1.75, 1.5, 1.25]])      # several positions in one cell
+    add("Bilinear", dims=[2, 2, 3], iava=[[0.25, 0.75], [0.5, 0.5]])
+    add("Bilinear", dims=[5, 2], iava=[[3.5, 0.0, 2.125], [0.0, 0.5, 0.875]])
+    # 2-d kernels of every small shape / offset on 2-d arrays (executable conv2_model)
+    kk = 0
+    for d in ([[4, 5], [3, 3], [2, 6]] if not th else [[4, 5], [3, 3], [2, 6], [5, 4], [1, 4], [6, 2]]):
+        for hs in [(1, 1), (1, 2), (2, 1), (2, 2), (3, 2), (2, 3), (3, 3), (4, 3), (2, 4)]:
+            if hs[0] > d[0] + 2 or hs[1] > d[1] + 2:
+                continue
+            offs = [(a, b) for a in range(hs[0]) for b in range(hs[1])]
+            for off in (offs if th else [offs[(kk + 1) % len(offs)], offs[-1 - (kk % len(offs))]]):
+                kk += 1
+                add("ConvolveND" if kk % 2 else "Convolve2D", dims=d, h=np.array(_ivec(r, hs[0] * hs[1])).reshape(hs).tolist(),
+                    offset=list(off), axes=[0, 1] if kk % 3 else [-2, -1], method="direct" if kk % 4 == 0 else "fft")
     # ---- Regression
     for t, order in [([0, 1, 2, 3], 1), ([-1.5, 0.25, 2.0], 2), ([0.5, 1.0, -2.0, 3.0, 4.0], 3), ([2.0], 0), ([1.0, -1.0], 4)]:
         add("Regression", t=t, order=order)
@@ -887,18 +1011,34 @@ def extract(tier):
 CANARY = 999999
 
 
+def model_of(fam, p):
+    """(forward, adjoint) Gallina expressions of the executable code-shaped model, or (None, None)."""
+    f = getattr(FAM[fam], "model", None)
+    if f is None:
+        return None, None
+    try:
+        r = f(p)
+    except Exception:
+        r = None
+    return r if r else (None, None)
+
+
 def _lit(rec, spec):
     c = rec["cplx"]
     pre = "kc" if c else "kr"
-    return ("{| %s_id := %d%%nat; %s_spec := %s;\n  %s_A := %s;\n  %s_B := %s |}"
-            % (pre, rec["id"], pre, spec, pre, common.mlit(rec["A"], c), pre, common.mlit(rec["B"], c)))
+    mf, ma = rec.get("model", (None, None))
+    return ("{| %s_id := %d%%nat; %s_spec := %s;\n  %s_A := %s;\n  %s_B := %s;\n  %s_mf := %s; %s_ma := %s |}"
+            % (pre, rec["id"], pre, spec, pre, common.mlit(rec["A"], c), pre, common.mlit(rec["B"], c),
+               pre, "Some %s" % mf if mf else "None", pre, "Some %s" % ma if ma else "None"))
 
 
 def coq_eval(recs):
     d = common.workdir(SUB)
     ok = [r for r in recs if "error" not in r]
     can = {"id": CANARY, "cplx": False, "A": np.array([[0.0, 1.0], [1.0, 0.0]]), "B": np.array([[0.0, 1.0], [1.0, 0.0]]),
-           "family": "Flip", "params": {"dims": [2]}}
+           "family": "Flip", "params": {"dims": [2]}, "model": ("(pad_fwd QcR 0 0)", None)}   # wrong model as well: code 3 expected
+    for r in ok:
+        r["model"] = model_of(r["family"], r["params"])
     items = [(r, FAM[r["family"]].coq(r["params"])) for r in ok]
     items.append((can, "(specM QcR 2 2 (pad_spec QcR 0 2))"))        # deliberately wrong: identity documented, flip observed
     items.sort(key=lambda t: -t[0]["A"].size)
@@ -915,7 +1055,7 @@ def coq_eval(recs):
         names.append(name)
         with open(os.path.join(d, name + ".v"), "w") as f:
             f.write("From Coq Require Import QArith Qcanon ZArith List.\n"
-                    "From PV Require Import Dict Vec Dot Mat QcInst GaussQc Check IndexOps Conv InterpOps CheckC07b.\n"
+                    "From PV Require Import Dict Vec Dot Mat QcInst GaussQc Check IndexOps Conv InterpOps ConvND BilinearOp CheckC07b.\n"
                     "Import ListNotations.\nOpen Scope Qc_scope.\n")
             f.write("Definition tol : Qc := %s.\n" % tq)
             f.write("Definition rcases : list caseR := [\n%s].\n" % ";\n".join(_lit(r, s) for r, s in sh if not r["cplx"]))
@@ -926,7 +1066,7 @@ def coq_eval(recs):
     for n in names:
         res.update(common.parse_failing(outs[n]))
     c = res.pop(CANARY, [])
-    if c[:1] != [1]:
+    if c[:1] != [1] or 3 not in c[0::3]:
         raise RuntimeError("C07b canary (flip matrix against the identity specification) was not reported: pipeline broken")
     return res
 
@@ -1005,6 +1145,7 @@ def run(R, tier):
     ok = 0
     nknown = 0
     adj_notes = []
+    nmodel = 0
     failing = {}          # family -> list of (size, rec, codes): shrunk to the smallest configuration below
     failing_adj = {}      # same for the documented adjoint action (ADJ_DOCUMENTED families)
     failing_err = {}      # (family, exception class) -> configurations on which the operator cannot be built/applied
@@ -1021,7 +1162,19 @@ def run(R, tier):
         evals += rec["A"].shape[0] + rec["A"].shape[1]
         if np.abs(rec["A"]).max(initial=0) > 0:
             nontriv.add(fam + json.dumps(p, sort_keys=True))
-        c = codes.get(rec["id"], [])
+        craw = codes.get(rec["id"], [])
+        cd = {craw[k]: craw[k + 1:k + 3] for k in range(0, len(craw), 3)}      # code -> [i, j]
+        if rec.get("model", (None, None))[0]:
+            nmodel += 1
+        # executable model vs implementation although the documented matrix agrees: the model no longer mirrors the code
+        if (3 in cd and 1 not in cd) or (4 in cd and 2 not in cd):
+            R.violation("%s: the executable Gallina model of %s %s disagrees with the implementation (%s) although the documented "
+                        "matrix agrees: the family theorems no longer apply to the code"
+                        % (SUB, fam, p, ", ".join("%s at %s" % ("forward" if k == 3 else "adjoint", cd[k]) for k in (3, 4) if k in cd)),
+                        {"family": fam, "params": p, "sub": SUB, "coq_codes": craw,
+                         "correspondence": "CheckC07b.chkR/chkC codes 3/4: implementation matrix vs modelM of the code-shaped model"},
+                        no_input=True)
+        c = ([1] + cd[1]) if 1 in cd else (([2] + cd[2]) if 2 in cd else [])
         if c[:1] == [1]:
             kf = known_for(fam, p, "C07")
             if kf:
@@ -1076,7 +1229,7 @@ def run(R, tier):
     for rec in recs:
         fams[rec["family"]] = fams.get(rec["family"], 0) + 1
     res = {"sub": SUB, "theorems": thms, "axioms": axioms, "configurations": len(recs) - nknown, "known_finding_cases": nknown, "discharged": ok,
-           "evaluations": evals, "distinct_nontrivial": len(nontriv), "families": fams,
+           "evaluations": evals, "distinct_nontrivial": len(nontriv), "families": fams, "with_executable_model": nmodel,
            "ndim": {str(k): sum(1 for r in recs if len(r["params"].get("dims", r["params"].get("N", [0]))) == k) for k in (1, 2, 3, 4)},
            "complex": sum(1 for r in recs if r["cplx"]), "t_python": round(t1 - t0, 1), "t_coq": round(t2 - t1, 1),
            "samples": [{"family": r["family"], "params": r["params"], "shape": r.get("shape")} for r in recs[::max(1, len(recs) // 6)]]}
